@@ -137,6 +137,40 @@ def check(chk, lib, root):
         if cls is None:
             chk.broke("set %s: class not resolvable from accessors" % "::".join(path))
             continue
+        # sbepp::visit(set): one visitor.on_set_choice(this-><choice>(), <choice tag>{}) per choice, in schema order - the value
+        # is the named getter's (tied to the XML index by the rows below) or a direct read of the choice's constant index
+        # through get_bit_tag (computed in the set's width); anything else (a hand-written mask) is not accepted
+        vv = [f for f in lib.facts["functions"] if (f.get("qn") or "").startswith(cls + "::operator()") and f.get("body") is not None
+              and (f.get("params") or [{}])[0].get("t", "").endswith("::visit_tag") and len(f.get("params") or []) == 2]
+        if vv:
+            got = []
+            for x in walk(vv[0]["body"]):
+                cal = x.get("callee") or {}
+                nm_ = cal.get("name") or x.get("member") or x.get("name")
+                a = x.get("args") or []
+                if nm_ != "on_set_choice" and not (x.get("k") == "CallExpr" and any((y.get("member") or y.get("name")) == "on_set_choice" for y in walk(x.get("fnexpr") or {}))):
+                    continue
+                if len(a) < 2:
+                    continue
+                first = a[-2]
+                while first.get("k") in ("ImplicitCastExpr", "ParenExpr") and first.get("sub") is not None:
+                    first = first["sub"]
+                getter = (first.get("callee") or {}).get("name") if first.get("k") == "CXXMemberCallExpr" and not (first.get("args") or []) else None
+                if getter is None and any("get_bit_tag" in (z.get("t") or "") for z in walk(first)):
+                    idxs = [int(z["cv"]) for z in walk(first) if z.get("k") == "IntegerLiteral" and str(z.get("cv", "")).isdigit()]
+                    byidx = {c_.index: c_.name for c_ in st.choices}
+                    if len(idxs) == 1 and idxs[0] in byidx:
+                        getter = byidx[idxs[0]]
+                tagt = (a[-1].get("t") or "").split("::")[-1]
+                got.append((getter, tagt))
+            want = [(c_.name, c_.name) for c_ in st.choices]
+            vkey = "visit:" + "::".join(path)
+            if got != want:
+                chk.violation("SET", vkey, where(vv[0]),
+                              "sbepp::visit of set %s reports %s, expected each choice's own getter with the choice's tag, in schema "
+                              "(declaration) order: %s" % ("::".join(path), got[:6], want[:6]))
+            else:
+                chk.ok("SET", vkey, {"choices": len(want)})
         # the deprecated visit_set entry point: one visitor(this-><choice>(), "<choice>") call per choice, in schema order -
         # the value reported for a choice is the named getter's (which the rows below tie to the XML index)
         vs = [f for f in lib.facts["functions"] if (f.get("qn") or "").startswith(cls + "::operator()") and f.get("body") is not None
